@@ -221,6 +221,38 @@ pub fn gen_c07(rng: &mut Rng, tier: Tier) -> Case {
         c.knobs.raw_threshold = Some(*rng.pick(&[4096usize, 16384, 65536]));
         c.knobs.init_cap = c.knobs.init_cap.map(|x| x.min(4096));
         c.mf = *rng.pick(&[MergeKind::Join, MergeKind::Join, MergeKind::First, MergeKind::Last]);
+    } else if rng.chance(1, 20) {
+        // many values of one key inside one in-memory run, their number on and around powers of two
+        // and multiples of 64 (where a batching, chunking or recursion scheme has its seams)
+        let mut ins: Vec<(B, B)> = Vec::new();
+        let mut id = 0u32;
+        let hot: Vec<u8> = vec![*rng.pick(&gen::ALPHA); rng.urange(0, 3)];
+        let count = match rng.below(3) {
+            0 => *rng.pick(&[64usize, 128, 256, 384, 512, 768, 1024]),
+            1 => (*rng.pick(&[64usize, 128, 256, 512]) as i64 + rng.range(0, 2) as i64 - 1) as usize,
+            _ => 64 * rng.urange(1, 12),
+        };
+        let others = rng.urange(0, 30);
+        let mut left_other = others;
+        for j in 0..count {
+            ins.push((B(hot.clone()), B(gen::record(id, rng.urange(0, 2)))));
+            id += 1;
+            // a few other keys in between
+            if left_other > 0 && rng.chance(others as u64, count as u64 + 1) {
+                let k = vec![*rng.pick(&gen::ALPHA); rng.urange(1, 4)];
+                if k != hot {
+                    ins.push((B(k), B(gen::record(id, rng.urange(0, 6)))));
+                    id += 1;
+                    left_other -= 1;
+                }
+            }
+            let _ = j;
+        }
+        c.inserts = Entries::Literal(ins);
+        // large enough for a single run in the first setting; the alternative settings may spill
+        c.knobs.raw_threshold = Some(1 << 20);
+        c.knobs.init_cap = c.knobs.init_cap.map(|x| x.min(4096));
+        c.mf = *rng.pick(&[MergeKind::Join, MergeKind::Concat, MergeKind::First, MergeKind::Last]);
     }
     Case::Sort(c)
 }
